@@ -33,6 +33,7 @@ from pathlib import Path
 
 from src.core.base import BaseLintContext, BaseLintRule
 from src.core.constants import HEADER_SCAN_LINES, IgnoreDirective, Language
+from src.core.linter_utils import project_relative_path
 from src.core.types import Severity, Violation
 from src.linter_config.ignore import get_ignore_parser
 from src.linter_config.rule_matcher import rule_matches
@@ -300,7 +301,7 @@ class StatelessClassRule(BaseLintRule):  # thailint: ignore[srp,dry]
             List of classes with test classes removed
         """
         # If file is a test file, exempt all classes
-        if is_test_file(str(context.file_path) if context.file_path else None):
+        if is_test_file(project_relative_path(context) if context.file_path else None):
             return []
 
         class_nodes = self._parse_class_nodes(context)
